@@ -101,8 +101,6 @@ harnesses! {
     /// Across two convertible units, for ALL finite magnitudes: the comparison
     /// is defined, antisymmetric, and decided by the signs when they differ
     /// (one representative ordered pair per CSS group, both directions).
-    fn c11t_cmp_lengths_all_magnitudes [unwind 4] (s) { cmp_pair_symbolic(s, 8, 11) }
-    fn c11t_cmp_angles_all_magnitudes [unwind 4] (s) { cmp_pair_symbolic(s, 17, 15) }
     fn c11_cmp_times_all_magnitudes [unwind 4] (s) { cmp_pair_symbolic(s, 19, 20) }
     fn c11_cmp_freqs_all_magnitudes [unwind 4] (s) { cmp_pair_symbolic(s, 22, 21) }
     fn c11_cmp_resolutions_all_magnitudes [unwind 4] (s) { cmp_pair_symbolic(s, 23, 25) }
